@@ -5,85 +5,46 @@
       ∀ (chunks : List Bytes),  X.writeChunks p₀ chunks  ≃  X.parse p₀ chunks.flatten
   (same cumulative event sequence, same accept/reject class), for valid and invalid input.
 
-  PROVED SO FAR (`…_partial`): the resumption law of `collect` — the one place where the
-  CBOR (and, verbatim, the UBJSON) parser parks a token that is split across writes: however
-  a token's bytes are cut, the token finally delivered, the remaining input and the buffer
-  are the same.  This is the core lemma of the target statement (every multi-byte token —
-  integer arguments, floats, lengths, text strings, keys — goes through `collect`); the
-  composition over all parser states is covered by the executable mirror, the
-  correspondence with depth/buffer hooks after every chunk, and the oracle over all cut
-  sets of short documents and every two-way cut of longer ones.
+  PROVED for the CBOR parser mirror, in full (`cbor_chunk_independent`, …): for EVERY byte
+  string — valid, invalid, truncated — and EVERY way of cutting it into chunks (empty chunks
+  and single bytes included), with ANY visitor fault index, `Write` per chunk + end of input
+  delivers the identical event sequence and returns the identical verdict (the same error
+  value) as the whole-buffer `Parse`; any two chunkings of the same bytes agree; and the same
+  from every state reachable by successful writes (mid-document, token parked in the buffer).
+  Proof: SF/Proofs/CborChunk{Inv,Step,Run,Split,NoFuel,Top}.lean — a stack/buffer invariant,
+  a fuel-free big-step relation, and a SPLIT LAW for every step function (a step on `a ++ b`
+  is the step on `a` with `b` left over, or `a` is parked and the next step on `b` completes
+  it), lifted through `feedUntil`, `feed`, `Write`.  Its core for the token buffer, the
+  resumption law of `collect` (shared verbatim by the UBJSON parser), is below.
+  UBJSON and JSON: executable mirror, correspondence with depth/buffer hooks after every
+  chunk, oracle over all cut sets of short documents and every two-way cut of longer ones.
 -/
 import SF.Cbor.Parse
+import SF.Proofs.CborCollect
+import SF.Proofs.CborChunkTop
 namespace SF.Props.C02
 open SF SF.Cbor SF.Cbor.Parse
 
 /-- what `collect` computes, as a two-line specification: with `buf` already parked (fewer
 than `n` bytes), the token is the first `n` bytes of `buf ++ input` if there are that many,
 else everything is parked -/
-def collectSpec (buf b : Bytes) (n : Nat) : Bytes × Bytes × Option Bytes :=
-  if buf.length + b.length ≥ n then ([], b.drop (n - buf.length), some (buf ++ b.take (n - buf.length)))
-  else (buf ++ b, [], none)
+abbrev collectSpec := SF.Cbor.Collect.collectSpec
 
 /-- the mirrored `collect` (fast zero-copy path, buffered path, leftover handling) meets its
 specification whenever the buffer invariant holds (fewer than `n` bytes parked) -/
 theorem collect_eq_spec (buf b : Bytes) (n : Nat) (hn : 0 < n) (hb : buf.length < n) :
-    collect buf b n = collectSpec buf b n := by
-  unfold collect collectSpec
-  by_cases hbuf : buf.length > 0
-  · simp only [hbuf, if_true]
-    have hd : ((n : Int) - buf.length > 0) := by omega
-    have hN : ((n : Int) - (buf.length : Int)).toNat = n - buf.length := by omega
-    simp only [hd, if_true, hN]
-    by_cases hc : n - buf.length > b.length
-    · have : ¬ (buf.length + b.length ≥ n) := by omega
-      simp [hc, this]
-    · have hge : buf.length + b.length ≥ n := by omega
-      have hl : (buf ++ b.take (n - buf.length)).length = n := by
-        simp [List.length_take]; omega
-      simp only [hc, if_false, hge, if_true, hl, ge_iff_le, Nat.le_refl, beq_self_eq_true]
-      have : (buf ++ b.take (n - buf.length)).take n = buf ++ b.take (n - buf.length) :=
-        List.take_of_length_le (by omega)
-      simp [this]
-  · have hnil : buf = [] := by
-      cases buf with
-      | nil => rfl
-      | cons a l => simp at hbuf
-    subst hnil
-    simp only [List.length_nil, Nat.lt_irrefl, gt_iff_lt, if_false, Nat.zero_add, Nat.sub_zero,
-      List.nil_append, ge_iff_le]
+    collect buf b n = collectSpec buf b n :=
+  SF.Cbor.Collect.collect_eq_spec buf b n hn hb
 
-/-- C02 core, `…_partial`: RESUMPTION.  Cutting the input of a collecting state at ANY point
-changes nothing: feeding `a` and then `b` (with whatever `a` left parked) delivers the same
-token, leaves the same remaining input and the same buffer as feeding `a ++ b` at once. -/
+/-- C02 core: RESUMPTION.  Cutting the input of a collecting state at ANY point changes
+nothing: feeding `a` and then `b` (with whatever `a` left parked) delivers the same token,
+leaves the same remaining input and the same buffer as feeding `a ++ b` at once. -/
 theorem collect_resume_partial (buf a b : Bytes) (n : Nat) (hn : 0 < n) (hb : buf.length < n) :
     collect buf (a ++ b) n =
       match collect buf a n with
       | (buf1, rest1, some t) => (buf1, rest1 ++ b, some t)
-      | (buf1, _, none) => collect buf1 b n := by
-  rw [collect_eq_spec buf (a ++ b) n hn hb, collect_eq_spec buf a n hn hb]
-  unfold collectSpec
-  by_cases h1 : buf.length + a.length ≥ n
-  · have h2 : buf.length + (a ++ b).length ≥ n := by simp; omega
-    simp only [h1, h2, if_true]
-    have hk : n - buf.length ≤ a.length := by omega
-    simp [List.take_append_of_le_length hk, List.drop_append_of_le_length hk]
-  · simp only [h1, if_false]
-    have hlt : (buf ++ a).length < n := by simp; omega
-    rw [collect_eq_spec (buf ++ a) b n hn hlt]
-    unfold collectSpec
-    by_cases h2 : buf.length + (a ++ b).length ≥ n
-    · have h3 : (buf ++ a).length + b.length ≥ n := by simp at h2 ⊢; omega
-      simp only [h2, h3, if_true]
-      have hk : a.length ≤ n - buf.length := by omega
-      have e1 : n - (buf ++ a).length = n - buf.length - a.length := by simp; omega
-      rw [e1]
-      simp [List.take_append, List.drop_append, List.take_of_length_le hk, List.drop_of_length_le hk,
-        List.append_assoc]
-    · have h3 : ¬ ((buf ++ a).length + b.length ≥ n) := by simp at h2 ⊢; omega
-      have h2' : ¬ (n ≤ buf.length + (a.length + b.length)) := by simp at h2; omega
-      have h3' : ¬ (n ≤ buf.length + a.length + b.length) := by simp at h3; omega
-      simp [h2', h3', List.append_assoc]
+      | (buf1, _, none) => collect buf1 b n :=
+  SF.Cbor.Collect.collect_resume_partial buf a b n hn hb
 
 /-- corollary: byte-at-a-time delivery of a token equals whole delivery -/
 theorem collect_bytewise_partial (buf : Bytes) (x : UInt8) (c : Bytes) (n : Nat) (hn : 0 < n)
@@ -92,11 +53,48 @@ theorem collect_bytewise_partial (buf : Bytes) (x : UInt8) (c : Bytes) (n : Nat)
       match collect buf [x] n with
       | (buf1, rest1, some t) => (buf1, rest1 ++ c, some t)
       | (buf1, _, none) => collect buf1 c n :=
-  collect_resume_partial buf [x] c n hn hb
+  SF.Cbor.Collect.collect_bytewise_partial buf x c n hn hb
 
 /-- non-vacuity: a 4-byte token cut after its first byte, with one byte already parked -/
 example : collect [1] ([2] ++ [3, 4, 5]) 4 = ([], [5], some [1, 2, 3, 4]) ∧
     collect [1] [2] 4 = ([1, 2], [], none) ∧ collect [1, 2] [3, 4, 5] 4 = ([], [5], some [1, 2, 3, 4]) := by
   decide
+
+/-! ### the full statement for the CBOR parser -/
+
+/-- C02 for cborl: for EVERY byte string and EVERY chunking, `Write` per chunk followed by the
+end-of-input check (= `ParseReader`, `Write*` + end) reports the same events and the same
+verdict — the same error value — as the whole-buffer `Parse` of the concatenation -/
+theorem cbor_chunk_independent (cs : List Bytes) :
+    (writeChunks {} cs).1.evs = (parse {} cs.flatten).1.evs ∧
+    (writeChunks {} cs).2 = (parse {} cs.flatten).2 :=
+  SF.Cbor.Chunk.cbor_chunk_independent cs
+
+/-- … also under a visitor that fails at its k-th event, for every k -/
+theorem cbor_chunk_independent_failAt (k : Option Nat) (cs : List Bytes) :
+    (writeChunks { failAt := k } cs).1.evs = (parse { failAt := k } cs.flatten).1.evs ∧
+    (writeChunks { failAt := k } cs).2 = (parse { failAt := k } cs.flatten).2 :=
+  SF.Cbor.Chunk.cbor_chunk_independent_failAt k cs
+
+/-- … hence any two chunkings of the same bytes are indistinguishable -/
+theorem cbor_chunkings_agree (k : Option Nat) (cs₁ cs₂ : List Bytes) (h : cs₁.flatten = cs₂.flatten) :
+    (writeChunks { failAt := k } cs₁).1.evs = (writeChunks { failAt := k } cs₂).1.evs ∧
+    (writeChunks { failAt := k } cs₁).2 = (writeChunks { failAt := k } cs₂).2 :=
+  SF.Cbor.Chunk.cbor_chunkings_agree k cs₁ cs₂ h
+
+/-- … and from every state reachable by successful `Write`s (mid-document, token parked):
+same events, same verdict, and on success the same final parser state -/
+theorem cbor_chunk_independent_reach (p : P) (h : SF.Cbor.Chunk.Reach p) (cs : List Bytes) :
+    (writeChunks p cs).1.evs = (parse p cs.flatten).1.evs ∧
+    (writeChunks p cs).2 = (parse p cs.flatten).2 ∧
+    ((writeChunks p cs).2 = none → (writeChunks p cs).1 = (parse p cs.flatten).1) :=
+  SF.Cbor.Chunk.cbor_chunk_independent_reach p h cs
+
+/-- non-vacuity: `[1, "ab"]` cut inside the array head's successor, inside the text string,
+with an empty chunk; and a truncated document: same error either way -/
+example : (writeChunks {} [[0x82], [0x01, 0x62], [], [0x61], [0x62]]).1.evs = (parse {} [0x82, 0x01, 0x62, 0x61, 0x62]).1.evs ∧
+    (writeChunks {} [[0x82], [0x01, 0x62], [], [0x61], [0x62]]).2 = none ∧
+    (writeChunks {} [[0x82, 0x01], [0x62, 0x61]]).2 = some .incomplete ∧ (parse {} [0x82, 0x01, 0x62, 0x61]).2 = some .incomplete := by
+  decide +kernel
 
 end SF.Props.C02
